@@ -55,3 +55,14 @@ Theorem C20_short_errors_forever : forall cfg m st x, (length x < 16)%nat -> byt
   Forall is_terr (tlog_read_n m cfg st (map B x)).
 Proof. exact short_errors_forever. Qed.
 Print Assumptions C20_short_errors_forever.
+
+(* ---- tie by translation (gen/SrcTlog.v regenerated from pkg/tlog on every run) ---- the numerals
+   of the entry header code: eight bytes, most significant first, microseconds *)
+From Coq Require Import ZArith List.
+Import ListNotations.
+From GM Require Import SrcTlog SrcTlogTie.
+Theorem C20_source_numerals :
+  (k_tlog_Writer_Write = [56; 48; 40; 32; 24; 16; 8] /\
+   k_tlog_Reader_Read = [8; 0; 56; 1; 48; 2; 40; 3; 32; 4; 24; 5; 16; 6; 8; 7; 1000000; 1000000; 1000])%Z.
+Proof. exact src_tlog_numerals. Qed.
+Print Assumptions C20_source_numerals.
